@@ -50,8 +50,8 @@ def runScript (read : Read) (l : Lexer) (ops : List String) : List String :=
     | [] => acc.reverse
     | op :: rest =>
       if op == "S" then let l := l.start read; go rest l laEnd (fmtState l :: acc)
-      else if op == "A" then let l := if l.eof && !l.chunk.isEmpty then l else l.advance read false; go rest l laEnd (fmtState l :: acc)
-      else if op == "K" then let l := if l.eof && !l.chunk.isEmpty then l else l.advance read true; go rest l laEnd (fmtState l :: acc)
+      else if op == "A" then let l := l.advance read false; go rest l laEnd (fmtState l :: acc)
+      else if op == "K" then let l := l.advance read true; go rest l laEnd (fmtState l :: acc)
       else if op == "M" then let l := l.markEnd; go rest l laEnd (fmtState l :: acc)
       else if op == "F" then
         let (l, e) := l.finish laEnd
@@ -187,7 +187,7 @@ def runCase (s : St) : String :=
       let (shape, pos) := if col && st.fail.isSome then ("ok", "ok") else (shape, pos)
       let cause := if col && st.fail.isSome then "-"
         else if st.fail.isNone && st.quirks == 0 then "-"
-        else if !onB && ((s.hasE && effOk && stE.isNone) || (rc && !streamEq)) then "char-splitting-range-boundary"
+        else if (!onB && s.hasE && effOk && stE.isNone) || (!fit && rc && !streamEq) then "char-splitting-range-boundary"
         else if st.fail.isNone && errBoth then "error-recovery"   -- erroneous on both sides: ERROR/MISSING nodes sit at the left image of a seam
         else if st.fail.isNone then
           -- a boundary on a range with start = end (repaired by fixes/C13-empty-range-boundary.diff), or only on
